@@ -25,21 +25,6 @@ func genC04Lemmas() (src string, names []string) {
 	var sb strings.Builder
 	sb.WriteString("//go:build verif\n\npackage goatlang\n\n")
 	sb.WriteString(`
-func verifCatch(f func()) (panicked bool) {
-	defer func() {
-		if r := recover(); r != nil {
-			if _, ok := r.(verifInfeasible); ok {
-				panic(r)
-			}
-			panicked = true
-		}
-	}()
-	f()
-	return false
-}
-
-func verifSameF(a, b float64) bool { return a == b || (a != a && b != b) }
-
 // verifExecTop runs a one-instruction program on a stack holding v and returns the new top of stack.
 func verifExec(codes []instruction, stack []Value) (out []Value, panicked bool) {
 	vm := &VM{globals: newGlobals(), stack: stack, frame: frame{Codes: codes}}
